@@ -20,7 +20,9 @@ use crate::grin_core::core::FeeFields;
 use crate::grin_keychain::Keychain;
 use crate::grin_util::secp::key::SecretKey;
 use crate::internal::{selection, tx, updater};
+use crate::slate::PaymentInfo;
 use crate::slate_versions::SlateVersion;
+use crate::util::OnionV3Address;
 use crate::{
 	address, BlockFees, CbData, Error, NodeClient, Slate, SlateState, TxLogEntryType, VersionInfo,
 	WalletBackend,
@@ -204,8 +206,24 @@ where
 				batch.commit()?;
 			}
 
-			// Now do the actual locking
-			tx_lock_outputs(w, keychain_mask, &sl)?;
+			// Now do the actual locking. The log entry must record the payment proof
+			// that was requested at initiation, never what the reply claims
+			let mut lock_sl = sl.clone();
+			lock_sl.payment_proof = match args.payment_proof_recipient_address.as_ref() {
+				Some(a) => {
+					let index = context.payment_proof_derivation_index.unwrap_or(0);
+					let sender_key =
+						address::address_from_derivation_path(&keychain, &parent_key_id, index)?;
+					Some(PaymentInfo {
+						sender_address: OnionV3Address::from_private(&sender_key.0)?
+							.to_ed25519()?,
+						receiver_address: a.pub_key,
+						receiver_signature: None,
+					})
+				}
+				None => None,
+			};
+			tx_lock_outputs(w, keychain_mask, &lock_sl)?;
 		}
 
 		// Add our contribution to the offset
